@@ -222,6 +222,7 @@ MATH = {
     'attach_cmt': '$ a_b /* c */ ^d $', 'frac_cmt': '$ a / /* c */ b $', 'delim_cmt_nl': '$ (/* c */\n a) $', 'call_lc': '$ f(a, // c\n b) $', 'call_lc_end': '$ f(a // c\n) $',
     'delim_bc_before_close': '$ (a + b /* c */) dot [u v /* d */] $', 'delim_bc_after_open': '$ (/* c */ a + b) $', 'delim_lc_before_close': '$ (a + b // c\n) $', 'delim_bc_glued': '$ (a/* c */) {b /* d */ } $',
     'delim_bc_between': '$ (a /* c */ b) $', 'abs_bc_before_close': '$ |x /* c */| $', 'floor_bc': '$ ⌊ x /* c */ ⌋ $',
+    'inline_nl': '$a\n b$', 'inline_nl_sum': '$a +\n b + c$', 'inline_nl_call': '$f(x)\n g(y)$', 'inline_sp': '$a  b$',
     'multi_space': '$ a    b $', 'tab': '$ a\tb $', 'many_nl': '$ a\n\n\n b $',
 }
 
